@@ -237,6 +237,14 @@ func genMixedLists(t *rapid.T, fileChance int) (lists []ListSpec, models []NetMo
 		// document-level exceptions for single pages of one referrer host
 		lines = append(lines, "@@||page.example/checkout^$urlblock", "||ads.example^", "@@||page.example/cart^$genericblock", "||ads.example/x.js$domain=page.example")
 	}
+	if chance(t, "many-client-names-block", 2) {
+		// $client lists long enough for an index to pay off
+		var names []string
+		for i := 0; i < rapid.IntRange(16, 40).Draw(t, "nclient-names"); i++ {
+			names = append(names, fmt.Sprintf("dev%02d", (i*7)%41))
+		}
+		lines = append(lines, "||clients.example^$client="+strings.Join(names, "|"), "@@||clients.example^$client=~"+strings.Join(names[:16], "|~"))
+	}
 	if chance(t, "bucket-sharing-block", 2) {
 		// several rules in one shortcut bucket, and rules in other buckets that the same URLs reach later
 		for i := rapid.IntRange(3, 6).Draw(t, "bucket-size"); i > 0; i-- {
@@ -285,7 +293,14 @@ func genFieldToggleQueries(t *rapid.T) []Q {
 // genBlockQueries returns questions aimed at the rule blocks of genMixedLists
 // (asked in the returned order).
 func genBlockQueries(t *rapid.T) []Q {
-	switch rapid.IntRange(0, 2).Draw(t, "block") {
+	switch rapid.IntRange(0, 3).Draw(t, "block") {
+	case 3:
+		// named clients asking for the host of the rule with many client names
+		var out []Q
+		for i := rapid.IntRange(3, 8).Draw(t, "nnamed"); i > 0; i-- {
+			out = append(out, Q{Host: true, Hostname: "clients.example", CName: fmt.Sprintf("dev%02d", rapid.IntRange(0, 45).Draw(t, "devno")), CIP: "10.0.0.7"})
+		}
+		return out
 	case 0:
 		// first from the sub-domain (walks both buckets), then from the domain itself
 		u := pick(t, "dbu", []string{"http://x.com/a1/a2/a3/a4/a5/a6/a9/b1/b2", "http://x.com/a9/a6/a5/a4/a3/a2/a1", "http://x.com/a3", "http://x.com/a1/a2/a3/a4/a5/a6/a9/b1/b2"})
